@@ -50,10 +50,13 @@ def add_connection_choice(g, rng, max_s=3, max_t=3, p_group=0.3, p_excl=0.3):
     return g
 
 
-def random_cc_graph(rng, nmin=3, nmax=7, **kw):
+def random_cc_graph(rng, nmin=3, nmax=7, p_two=0.2, **kw):
     while True:
         g = gen_graph.random_graph(rng, nmin=nmin, nmax=nmax, max_ch=2, n_inc=(0, 1), max_space=12)
         add_connection_choice(g, rng, **kw)
+        if rng.random() < p_two:          # a second, small connection choice (independent connectors)
+            add_connection_choice(g, rng, max_s=2, max_t=2, p_group=0.0, p_excl=0.2)
+            g['feat'].append('two_cc')
         if well_formed(g):
             continue
         return g
@@ -73,3 +76,23 @@ def theory_conn_example():
     g['cc'] = [{'src': [6, 7], 'tgt': [8, 9], 'excl': []}]
     g['feat'] = ['theory_conn_example', 'cc', 'grouping']
     return g
+
+
+def exclusion_with_conditional_target_examples():
+    """One source (exactly 1 connection), three optional targets, one of which is conditional, an exclusion edge to a
+    LATER target: in the scenario without the conditional target the exclusion must still hit the same connector.
+    Both positions of the conditional target and of the excluded one."""
+    from harness.gd import empty
+    out = []
+    for cond_pos, excl_pos in ((0, 1), (0, 2), (1, 2), (1, 0)):
+        g = empty(3)                   # 1 start, 2 = option 'with', 3 = option 'without'
+        g['ch'] = [{'origin': 1, 'opts': [2, 3]}]
+        g['n'] = 7
+        g['nodes'] += [node('conn', dl=[1])] + [node('conn', dmin=0, dmax=1) for _ in range(3)]
+        tg = [5, 6, 7]
+        g['der'] = [[1, 4]] + [[2 if i == cond_pos else 1, t] for i, t in enumerate(tg)]
+        g['der'].sort()
+        g['cc'] = [{'src': [4], 'tgt': tg, 'excl': [[4, tg[excl_pos]]]}]
+        g['feat'] = ['cc', 'exclusion', 'exclusion_with_conditional_target']
+        out.append(g)
+    return out
